@@ -49,14 +49,26 @@ fn main() {
     let unit: Value = serde_json::from_str(&read(&format!("{}/unit.json", unit_dir)))
         .unwrap_or_else(|e| die(&format!("unit.json: {}", e)));
     let mut contracts = vspec::Contracts::default();
-    let cfiles: Vec<String> = match unit["contracts"].as_array() {
-        Some(a) => a.iter().map(|v| v.as_str().unwrap().to_string()).collect(),
-        None => vec!["contracts.vspec".to_string()],
+    // entries: "file" or {"file": .., "optional": true} (sections of an optional file may stay unused:
+    // the file is shared with another unit)
+    let cfiles: Vec<(String, bool)> = match unit["contracts"].as_array() {
+        Some(a) => a
+            .iter()
+            .map(|v| match v.as_str() {
+                Some(s) => (s.to_string(), false),
+                None => (v["file"].as_str().unwrap().to_string(), v["optional"].as_bool().unwrap_or(false)),
+            })
+            .collect(),
+        None => vec![("contracts.vspec".to_string(), false)],
     };
-    for cf in cfiles {
+    let mut optional_keys: Vec<String> = Vec::new();
+    for (cf, optional) in cfiles {
         let vspec_path = format!("{}/{}", unit_dir, cf);
         let part = vspec::parse(&read(&vspec_path), &vspec_path);
         for (k, v) in part.items {
+            if optional {
+                optional_keys.push(k.clone());
+            }
             if contracts.items.contains_key(&k) {
                 die(&format!("duplicate @item {} across contract files", k));
             }
@@ -165,7 +177,7 @@ fn main() {
 
     // every contract section must have been consumed (otherwise: lost anchor)
     for (k, _) in contracts.items.iter() {
-        if !used_contracts.contains(k) {
+        if !used_contracts.contains(k) && !optional_keys.contains(k) {
             die(&format!(
                 "contracts.vspec has a section for item `{}` but no such item was extracted (lost anchor)",
                 k
